@@ -133,6 +133,20 @@ theorem extMulBinomial_eval_D4 (α : R) (x0 x1 x2 x3 y0 y1 y2 y3 : R) :
   simp [evalAt, extMulBinomial, lsum, vget, List.range, List.range.loop, List.flatMap, List.filterMap]
   ring
 
+/-- **Binomial product, D = 5** (BabyBear / Goldilocks quintic binomial extensions). -/
+theorem extMulBinomial_eval_D5 (α : R) (x0 x1 x2 x3 x4 y0 y1 y2 y3 y4 : R) :
+    evalAt α 5 (extMulBinomial 5 (α ^ 5) [x0, x1, x2, x3, x4] [y0, y1, y2, y3, y4]) =
+      evalAt α 5 [x0, x1, x2, x3, x4] * evalAt α 5 [y0, y1, y2, y3, y4] := by
+  simp [evalAt, extMulBinomial, lsum, vget, List.range, List.range.loop, List.flatMap, List.filterMap]
+  ring
+
+/-- **Binomial product, D = 8**: multiplication modulo `X⁸ − W`. -/
+theorem extMulBinomial_eval_D8 (α : R) (x0 x1 x2 x3 x4 x5 x6 x7 y0 y1 y2 y3 y4 y5 y6 y7 : R) :
+    evalAt α 8 (extMulBinomial 8 (α ^ 8) [x0, x1, x2, x3, x4, x5, x6, x7] [y0, y1, y2, y3, y4, y5, y6, y7]) =
+      evalAt α 8 [x0, x1, x2, x3, x4, x5, x6, x7] * evalAt α 8 [y0, y1, y2, y3, y4, y5, y6, y7] := by
+  simp [evalAt, extMulBinomial, lsum, vget, List.range, List.range.loop, List.flatMap, List.filterMap]
+  ring
+
 /-- **Quintic trinomial product**: multiplication modulo `X⁵ + X² − 1`. -/
 theorem extMulQuintic_eval (α : R) (h : α ^ 5 + α ^ 2 - 1 = 0) (x0 x1 x2 x3 x4 y0 y1 y2 y3 y4 : R) :
     evalAt α 5 (extMulQuintic [x0, x1, x2, x3, x4] [y0, y1, y2, y3, y4]) =
